@@ -2,6 +2,7 @@ package main
 
 import (
 	"go/token"
+	"go/types"
 	"fmt"
 	"sort"
 	"strings"
@@ -60,6 +61,33 @@ func runC12(r *Run) {
 			})
 			r.Check(canFail, "R11", fnID(gv)+"#can-fail", r.P.Pos(fnPos(gv)), "has a failure exit",
 				"the DAO module's genesis validation returns nil unconditionally: duplicate holders or repeated denominations are accepted and the imported ledger starts with total ≠ sum of balances")
+			// duplicates are recognised by what the address decodes to (an address has an upper-case spelling too)
+			okKey, nLook := true, 0
+			eachInstr(gv, func(in ssa.Instruction) {
+				lk, ok := in.(*ssa.Lookup)
+				if !ok {
+					return
+				}
+				if _, isMap := lk.X.Type().Underlying().(*types.Map); !isMap {
+					return
+				}
+				nLook++
+				if !backSlice(lk.Index).HasCall(func(g CallInfo) bool { return g.Name == "GetAddress" || g.Name == "AccAddressFromBech32" || g.Name == "MustAccAddressFromBech32" }) {
+					okKey = false
+				}
+			})
+			r.Check(okKey && nLook >= 1, "R11", fnID(gv)+"#duplicates-by-decoded-address", r.P.Pos(fnPos(gv)), "the duplicate-holder test is keyed by the decoded address",
+				"GenesisState.Validate has no duplicate-holder test keyed by the decoded address (none at all, or keyed by the address string as spelled): two entries for one holder — the second in upper case — are both accepted, InitGenesis overwrites the balance and adds both to the total")
+			// and InitGenesis runs it
+			if ig, ok := r.P.FnOK("(x/ucdao/keeper.BaseKeeper).InitGenesis"); ok {
+				isVal := isCallMatching(func(ci CallInfo) bool { return ci.Name == "Validate" && ci.Recv == "GenesisState" })
+				isWrite := isCallMatching(func(ci CallInfo) bool {
+					return ci.Name == "SetParams" || ci.Name == "initBalances" || ci.Name == "setTotalBalanceOfCoin" || ci.Name == "setHoldersIndex"
+				})
+				w := PathQuery{Fn: ig, Block: isVal, Target: isWrite}.Search()
+				r.Check(w == nil, "R11", fnID(ig)+"#validates-before-writing", r.P.Pos(fnPos(ig)), "Validate() precedes every write",
+					"InitGenesis writes the imported ledger without having run GenesisState.Validate: the module manager does not validate on InitChain, only the validate-genesis command does", r.P.witness(w)...)
+			}
 		} else {
 			r.Bad("R11", "anchor/ucdao GenesisState.Validate", "", "not found")
 		}
